@@ -1,25 +1,41 @@
 package symexec
 
 // text/template: parsing is done natively (real syntax errors, with dummy
-// functions registered under the names the program registered); execution is
-// a contract stub: it either fails (engine choice) or writes bytes to the
-// writer - the literal text for a template without actions, an opaque marker
-// otherwise.  Template SEMANTICS are outside every claim; what is checked is
-// the glue around Execute.
+// functions registered under the names the program registered).  Execution:
+//   - a template made of literal text and SIMPLE actions only is evaluated
+//     precisely: {{ .field }} over a map[string]string (missing key = ""),
+//     {{ fn }} / {{ fn.Unix }} / {{ x | fn }} where fn is a function of the
+//     program's FuncMap that is itself interpreted (a closure of the repo),
+//     so the binding of __line__ / __timestamp__ is followed for real;
+//   - any other template is a contract stub: Execute either fails (engine
+//     choice) or writes an opaque marker.
+// Template semantics beyond the simple fragment are outside every claim.
 
 import (
 	"fmt"
 	"go/token"
 	"go/types"
+	"strconv"
 	"strings"
 	"text/template"
+	"text/template/parse"
+
+	"golang.org/x/tools/go/ssa"
 )
 
 type nativeTmpl struct {
-	name  string
-	src   string
-	funcs map[string]bool
+	name   string
+	src    string
+	funcs  map[string]bool
+	fnVals map[string]value // the program's FuncMap values (closures, functions)
+	tree   *parse.Tree
 }
+
+// errTmplOpaque: the template is outside the precisely evaluated fragment.
+type errTmplOpaque struct{ why string }
+
+// tmplFailure: a FuncMap function returned a non-nil error.
+type tmplFailure struct{ err value }
 
 func tmplOf(v value) *nativeTmpl {
 	p, ok := v.(*value)
@@ -35,7 +51,7 @@ func tmplOf(v value) *nativeTmpl {
 
 func init() {
 	externals["text/template.New"] = func(fr *frame, args []value) value {
-		cell := value(&nativeTmpl{name: concStr(args[0], "template.New"), funcs: map[string]bool{}})
+		cell := value(&nativeTmpl{name: concStr(args[0], "template.New"), funcs: map[string]bool{}, fnVals: map[string]value{}})
 		return &cell
 	}
 	externals["(*text/template.Template).Option"] = func(fr *frame, args []value) value { return args[0] }
@@ -46,6 +62,7 @@ func init() {
 				if !e.dead {
 					if k, ok := e.k.(string); ok {
 						t.funcs[k] = true
+						t.fnVals[k] = e.v
 					}
 				}
 			}
@@ -59,14 +76,26 @@ func init() {
 		for k := range t.funcs {
 			fm[k] = func(...interface{}) string { return "" }
 		}
-		if _, err := template.New(t.name).Funcs(fm).Parse(t.src); err != nil {
+		nt, err := template.New(t.name).Funcs(fm).Parse(t.src)
+		if err != nil {
 			return tuple{(*value)(nil), fr.i.errValue(err)}
 		}
+		t.tree = nt.Tree
 		return tuple{args[0], iface{}}
 	}
 	externals["(*text/template.Template).Execute"] = func(fr *frame, args []value) value {
 		t := tmplOf(args[0])
 		x := fr.i.x
+		if out, ferr, ok := fr.i.tmplEval(fr, t, args[2]); ok {
+			if ferr != nil {
+				return ferr
+			}
+			r := fr.i.writerWriteBytes(fr, args[1], out)
+			if tup, ok := r.(tuple); ok && len(tup) == 2 {
+				return tup[1]
+			}
+			return iface{}
+		}
 		out := t.src
 		if strings.Contains(t.src, "{{") {
 			if x.choose(2, "template.Execute outcome") == 1 {
@@ -80,8 +109,209 @@ func init() {
 		}
 		return iface{}
 	}
+	externals["(*text/template.Template).Clone"] = func(fr *frame, args []value) value {
+		t := tmplOf(args[0])
+		c := *t // the clone shares the function values, as the library's does
+		c.funcs = map[string]bool{}
+		c.fnVals = map[string]value{}
+		for k, v := range t.funcs {
+			c.funcs[k] = v
+		}
+		for k, v := range t.fnVals {
+			c.fnVals[k] = v
+		}
+		cell := value(&c)
+		return tuple{&cell, iface{}}
+	}
 	externals["(*text/template.Template).Name"] = func(fr *frame, args []value) value { return tmplOf(args[0]).name }
 }
 
 var _ = token.NoPos
 var _ = types.Typ
+
+// tmplEval evaluates a template of the simple fragment; ok=false when the
+// template is outside it (the caller falls back to the contract stub).
+func (i *interpreter) tmplEval(fr *frame, t *nativeTmpl, data value) (out []value, failure value, ok bool) {
+	if t.tree == nil || t.tree.Root == nil {
+		return nil, nil, false
+	}
+	defer func() {
+		if r := recover(); r != nil {
+			switch r := r.(type) {
+			case errTmplOpaque:
+				out, failure, ok = nil, nil, false
+			case tmplFailure:
+				out, failure, ok = nil, r.err, true
+			default:
+				panic(r)
+			}
+		}
+	}()
+	// first pass: is every node in the fragment?  (no side effects before
+	// the decision, so the fallback sees an untouched state)
+	for _, n := range t.tree.Root.Nodes {
+		switch n := n.(type) {
+		case *parse.TextNode:
+		case *parse.ActionNode:
+			if len(n.Pipe.Decl) != 0 || len(n.Pipe.Cmds) == 0 {
+				return nil, nil, false
+			}
+			for ci, c := range n.Pipe.Cmds {
+				if !i.tmplCmdSupported(t, c, ci == 0) {
+					return nil, nil, false
+				}
+			}
+		default:
+			return nil, nil, false
+		}
+	}
+	for _, n := range t.tree.Root.Nodes {
+		switch n := n.(type) {
+		case *parse.TextNode:
+			out = append(out, strBytes(string(n.Text))...)
+		case *parse.ActionNode:
+			var cur value
+			for ci, c := range n.Pipe.Cmds {
+				cur = i.tmplCmd(fr, t, c, ci == 0, cur, data)
+			}
+			out = append(out, i.tmplPrint(fr, cur)...)
+		}
+	}
+	return out, nil, true
+}
+
+func (i *interpreter) tmplFn(t *nativeTmpl, name string) (value, bool) {
+	v, ok := t.fnVals[name]
+	if !ok {
+		return nil, false
+	}
+	if it, isIface := v.(iface); isIface { // FuncMap is map[string]any
+		v = it.v
+	}
+	switch v.(type) {
+	case *closure, *ssa.Function:
+		return v, true
+	}
+	return nil, false
+}
+
+func (i *interpreter) tmplCmdSupported(t *nativeTmpl, c *parse.CommandNode, first bool) bool {
+	if len(c.Args) != 1 {
+		return false
+	}
+	switch a := c.Args[0].(type) {
+	case *parse.FieldNode:
+		return first && len(a.Ident) == 1
+	case *parse.IdentifierNode:
+		fn, ok := i.tmplFn(t, a.Ident)
+		if !ok {
+			return false
+		}
+		sig := fnSignature(fn)
+		if sig == nil {
+			return false
+		}
+		want := 1
+		if first {
+			want = 0
+		}
+		return sig.Params().Len() == want && !sig.Variadic()
+	case *parse.ChainNode:
+		id, ok := a.Node.(*parse.IdentifierNode)
+		if !ok || !first || len(a.Field) != 1 {
+			return false
+		}
+		if a.Field[0] != "Unix" && a.Field[0] != "UnixNano" {
+			return false
+		}
+		fn, ok := i.tmplFn(t, id.Ident)
+		if !ok {
+			return false
+		}
+		sig := fnSignature(fn)
+		return sig != nil && sig.Params().Len() == 0 && sig.Results().Len() == 1 && sig.Results().At(0).Type().String() == "time.Time"
+	}
+	return false
+}
+
+func fnSignature(fn value) *types.Signature {
+	switch f := fn.(type) {
+	case *closure:
+		return f.Fn.Signature
+	case *ssa.Function:
+		return f.Signature
+	}
+	return nil
+}
+
+func (i *interpreter) tmplCall(fr *frame, fn value, args []value) value {
+	r := call(i, fr, token.NoPos, fn, args)
+	if tup, ok := r.(tuple); ok {
+		if len(tup) == 2 {
+			if e, ok := tup[1].(iface); ok && e.t != nil {
+				panic(tmplFailure{tup[1]})
+			}
+			return tup[0]
+		}
+		panic(errTmplOpaque{"function result arity"})
+	}
+	return r
+}
+
+func (i *interpreter) tmplCmd(fr *frame, t *nativeTmpl, c *parse.CommandNode, first bool, prev value, data value) value {
+	switch a := c.Args[0].(type) {
+	case *parse.FieldNode:
+		d, ok := data.(iface)
+		if !ok {
+			panic(unsupported("template data is not an interface"))
+		}
+		m, ok := d.v.(*smap)
+		if !ok {
+			panic(unsupported(fmt.Sprintf("template data is %T, want map[string]string", d.v)))
+		}
+		if v, ok := m.lookup(i, a.Ident[0]); ok {
+			return v
+		}
+		return "" // missingkey=zero over map[string]string
+	case *parse.IdentifierNode:
+		fn, _ := i.tmplFn(t, a.Ident)
+		if first {
+			return i.tmplCall(fr, fn, nil)
+		}
+		return i.tmplCall(fr, fn, []value{prev})
+	case *parse.ChainNode:
+		id := a.Node.(*parse.IdentifierNode)
+		fn, _ := i.tmplFn(t, id.Ident)
+		tv := i.tmplCall(fr, fn, nil)
+		if a.Field[0] == "Unix" {
+			return extTimeUnixSec(fr, []value{tv})
+		}
+		return timeNs(tv)
+	}
+	panic(errTmplOpaque{"command"})
+}
+
+func (i *interpreter) tmplPrint(fr *frame, v value) []value {
+	switch v := v.(type) {
+	case string:
+		return strBytes(v)
+	case symStr:
+		return append([]value{}, v.b...)
+	case int64, int, sym:
+		return strBytes(strconv.FormatInt(concInt(fr, v, "template: printing an integer"), 10))
+	}
+	panic(unsupported(fmt.Sprintf("template: printing a %T", v)))
+}
+
+// writerWriteBytes calls w.Write(b) on an io.Writer value.
+func (i *interpreter) writerWriteBytes(fr *frame, w value, b []value) value {
+	it := w.(iface)
+	if it.t == nil {
+		panic(nilDeref())
+	}
+	sel := i.prog.MethodSets.MethodSet(it.t).Lookup(nil, "Write")
+	if sel == nil {
+		panic(unsupported("write to a non-writer"))
+	}
+	return call(i, fr, token.NoPos, i.prog.MethodValue(sel), []value{it.v, b})
+}
